@@ -6,6 +6,7 @@ thread start / join / end) and every device call is a yield point where a
 seeded chooser decides who continues.  Deadlock (no enabled thread) is detected
 exactly; livelock as a bound on logical steps.  Nothing here looks at a clock.
 """
+import struct
 import sys
 import threading
 import types
@@ -375,6 +376,10 @@ def make_shim():
 # ----------------------------------------------------------------------------
 # fake PyAudio backend
 # ----------------------------------------------------------------------------
+def rec_sample(device_index, k):
+  return ((k * 5 + device_index * 11) % 64 - 32) / 16.0    # exact in float32
+
+
 class FakeDevStream(object):
   def __init__(self, pa, kwargs):
     self.pa = pa
@@ -398,6 +403,15 @@ class FakeDevStream(object):
 
   def write(self, data, nframes=None, *a, **k):
     self._call("write", bytes(data), nframes)
+
+  def read(self, nframes, *a, **k):
+    """Input streams: frames are numbered per device so that a recording can
+    be compared with what the device delivered (float32, mono)."""
+    self._call("read", nframes)
+    start = getattr(self, "frames_read", 0)
+    self.frames_read = start + nframes
+    return struct.pack("%df" % nframes, *[
+      rec_sample(self.index, start + i) for i in range(nframes)])
 
   def stop_stream(self):
     self._call("stop")
@@ -465,10 +479,17 @@ def install_fake_backend():
 class Harness(object):
   """Context manager: installs shim + wrappers around AudioThread for one
   scenario and restores everything afterwards."""
-  def __init__(self, lazy_io, chooser, max_steps=5000, line_level=False):
+  def __init__(self, lazy_io, chooser, max_steps=5000, line_level=False,
+               line_budget=None):
     self.lazy_io = lazy_io
     self.sched = Scheduler(chooser, max_steps)
     self.line_level = line_level
+    # logical bound on the library lines one thread may execute between two
+    # yield points: a loop that spins without ever reaching a synchronisation
+    # point or a device call is not a deadlock the scheduler can see and must
+    # not be left to a wall-clock watchdog
+    self.line_budget = line_budget
+    self.lines_since_yield = 0
     self.thread_errors = []
     self.player_threads = []
     self.extra_threads = []
@@ -502,6 +523,8 @@ class Harness(object):
           return
         if harness.line_level:
           sys.settrace(harness._tracer)
+        elif harness.line_budget:
+          sys.settrace(harness._budget_tracer)
         orig_run(thread)
       except SchedAbort:
         pass
@@ -526,8 +549,11 @@ class Harness(object):
     AT.start, AT.run, AT.join = start, run, join
     self.main = sched.register_current("main")
     SCHED = sched
+    self._budget_step = -1
     if self.line_level:
       sys.settrace(self._tracer)
+    elif self.line_budget:
+      sys.settrace(self._budget_tracer)
     return self
 
   def spawn(self, name, fn):
@@ -546,6 +572,8 @@ class Harness(object):
           return
         if harness.line_level:
           sys.settrace(harness._tracer)
+        elif harness.line_budget:
+          sys.settrace(harness._budget_tracer)
         fn()
       except SchedAbort:
         pass
@@ -565,6 +593,28 @@ class Harness(object):
     if event == "call" and frame.f_code.co_filename.endswith("lazy_io.py"):
       return self._local
     return None
+
+  def _budget_tracer(self, frame, event, arg):
+    if event == "call" and frame.f_code.co_filename.endswith(
+        ("lazy_io.py", "lazy_stream.py")):
+      return self._budget_local
+    return None
+
+  def _budget_local(self, frame, event, arg):
+    if event == "line":
+      s = self.sched
+      if s.steps != self._budget_step:
+        self._budget_step = s.steps
+        self.lines_since_yield = 0
+      self.lines_since_yield += 1
+      if self.lines_since_yield > self.line_budget and not s.aborted:
+        st = s.me()
+        if st is not None:
+          s.abort("spin-without-yield-point", st)
+          st.unwinding = True
+          self.spin_at = (frame.f_code.co_name, frame.f_lineno)
+          raise SchedAbort(s.aborted)
+    return self._budget_local
 
   def _local(self, frame, event, arg):
     if event == "line":
